@@ -5,20 +5,13 @@
 
 //go:build verif
 
-package extendeddaemonsetreplicaset
+package extendeddaemonset
 
 import (
 	generator "k8s.io/kube-state-metrics/v2/pkg/metric_generator"
-	"k8s.io/utils/clock"
 )
 
-// VerifSetBackOffClock puts the in-memory failed-pod back-off on the clock of the conformance harness
-// (virtual time). Compiled only with the `verif` build tag.
-func (r *Reconciler) VerifSetBackOffClock(c clock.Clock) {
-	r.failedPodsBackOff.Clock = c
-}
-
-// VerifMetricFamilies returns the metric family generators of the replica-set controller (build tag verif).
+// VerifMetricFamilies returns the metric family generators of the ExtendedDaemonSet controller (build tag verif).
 func VerifMetricFamilies() []generator.FamilyGenerator {
 	return generateMetricFamilies()
 }
